@@ -122,6 +122,54 @@ def run(ctx):
               "the configuration mutex is still held while serving (other workers block, a panic poisons it)", ctx.loc(pl))
     locks_in_loop = [bb for bb, t in pl.calls() if callee_name(t["fn"].get("path", "")) == "lock" and pl.in_loop(bb)]
     ctx.check("lock-discipline", "no-lock-in-serving-loop", not locks_in_loop, "no mutex is taken inside the serving loop", "a mutex is locked inside the serving loop", ctx.loc(pl))
+    # no function re-locks the configuration mutex while it still holds a guard of it (self-deadlock: the process would keep running with
+    # whatever workers got through their prologue, and every later locker blocks forever)
+    nlock = 0
+    for f2 in P.fns.values():
+        if not f2.path.startswith("roughenough_server::"):
+            continue
+        e2 = W.ev(f2.path)
+        locks = [(bb, e2.call_args(bb)[0]) for bb, t in f2.calls() if callee_name(t["fn"].get("path", "")) == "lock" and "Mutex" in t["fn"].get("path", "")]
+        nlock += len(locks)
+        drops = {}
+        for bl in f2.blocks:
+            if bl.term["k"] == "drop" and not bl.cleanup and not bl.term["place"].get("p"):
+                l = bl.term["place"]["l"]
+                if re.match(r"^(core::result::Result<)?std::sync::(poison::)?(mutex::)?MutexGuard<", f2.locals[l]["ty"]):
+                    drops.setdefault(l, []).append(bl.idx)
+        for (a_bb, a_m) in locks:
+            holders = {f2.blocks[a_bb].term["dst"]["l"]}
+            nxt = f2.blocks[a_bb].term["tgt"]
+            for _ in range(3):
+                if nxt is None:
+                    break
+                tt = f2.blocks[nxt].term
+                if tt["k"] == "call" and callee_name(tt["fn"].get("path", "")) in ("unwrap", "expect") and tt["args"] and (tt["args"][0].get("mv") or tt["args"][0].get("cp") or {}).get("l") in holders:
+                    holders.add(tt["dst"]["l"])
+                    nxt = tt["tgt"]
+                else:
+                    break
+            changed = True
+            while changed:
+                changed = False
+                for bl in f2.blocks:
+                    for st in bl.stmts:
+                        if st["k"] == "assign" and st["rv"]["k"] == "use" and not st["dst"].get("p"):
+                            src = st["rv"]["op"].get("mv")
+                            if src and not src.get("p") and src["l"] in holders and st["dst"]["l"] not in holders:
+                                holders.add(st["dst"]["l"])
+                                changed = True
+            dblocks = [d for h in holders for d in drops.get(h, [])]
+            for (b_bb, b_m) in locks:
+                if b_bb == a_bb or b_m != a_m or not f2.reaches(a_bb, b_bb):
+                    continue
+                released = bool(dblocks) and values.must_pass(f2, dblocks, from_block=f2.succ(a_bb)[0], to_blocks={b_bb})
+                npair = len([i for i in ctx.instances if i["rule"] == "lock-discipline" and "/relock#" in i["key"] and f2.path.split("::")[-1] + "/relock#" in i["key"]]) + 1
+                ctx.check("lock-discipline", "%s/relock#%d" % (f2.path.split("::")[-1], npair), released,
+                          "the guard taken at %s is dropped before the mutex is locked again at %s" % (f2.loc(a_bb), f2.loc(b_bb)),
+                          "%s locks the configuration mutex at %s while the guard taken at %s can still be alive: the thread deadlocks against itself holding the lock, later workers never start"
+                          % (f2.path.split("::")[-1], f2.loc(b_bb), f2.loc(a_bb)), f2.loc(b_bb))
+    ctx.floor("lock-discipline", nlock, 4, "config mutex lock sites in the server binary")
     chk = audit_facts.Checker(ctx, W)
     cloud = {f.path for f in P.fns.values() if "roughenough::kms::awskms" in f.path or "roughenough::kms::gcpkms" in f.path}
     ctx.extra["cloud_provider_code_out_of_scope"] = len(cloud)
